@@ -592,11 +592,12 @@ theorem scanCold_good (cfg : Cfg) (P : Name → Bool)
 
 /-! ## Concrete instances for non-vacuity examples and counterexamples -/
 
-/-- A concrete configuration: names decode through a given table, one-byte digests. -/
+/-- A concrete configuration: names decode through a given table; the digest is the
+length followed by the first byte. -/
 def exCfg (dec : Bytes → Option String) : Cfg :=
   { ignorer := fun _ _ => { status := .nominal, cont := false }
     symlinkMode := .portable, permsMode := .portable, preservesExec := true, decomposes := false
-    nfc := id, hash := fun c => [UInt8.ofNat c.length], utf8 := dec, escape := fun _ => "x"
+    nfc := id, hash := fun c => UInt8.ofNat c.length :: c.take 1, utf8 := dec, escape := fun _ => "x"
     normalize := fun _ t => if t = "" then none else some t
     openFileFault := fun _ => .none, openDirFault := fun _ => .none, readDirFault := fun _ => false
     readlinkFault := fun _ => .none, deviceID := 0, linux := true }
